@@ -170,8 +170,14 @@ class Scenario(object):
             for c, fr in tick:
                 pf = to_pamqp(c, fr)
                 if pf == 'NFaultRecv':
-                    # the peer goes away: EOF (num 0) or connection reset (num 1)
-                    self.br.drop('eof' if fr[1] == 0 else 'reset')
+                    # the peer goes away: EOF (num 0), connection reset (num 1), or EOF in the
+                    # middle of a frame (num 2: part of a heartbeat frame arrives first)
+                    if fr[1] == 2:
+                        from pamqp import heartbeat as _hb, frame as _fr
+                        raw = _fr.marshal(_hb.Heartbeat(), 0)
+                        self.br.push_bytes(raw[:len(raw) - 1 - (len(self.delivered) % 5)])
+                        vrt.pump_all()
+                    self.br.drop('reset' if fr[1] == 1 else 'eof')
                     vrt.pump_all()
                 elif pf == 'NFaultSend':
                     import errno
